@@ -27,7 +27,7 @@ class BaseSolver(object):
             f.write(out)
 
     def CreateCsvString(self):
-        varlist = self.VariableList
+        varlist = list(self.VariableList)
         if 't' in varlist:
             varlist.remove('t')
             varlist = ['t', ] + varlist
